@@ -611,6 +611,7 @@ def r9_desugar_iterators(srcs, stats):
       b  E.iter().fold(INIT, |A, X| BODY)          =>  ({ let mut A = INIT; for X in E.iter() { A = BODY; } A })
       d  E.iter().filter(|&N| COND).count()        =>  ({ let mut r9_c: usize = 0; for N in E.iter() { if COND { r9_c += 1; } } r9_c })
       e  E.iter_mut().for_each(|X| *X OP= RHS)     =>  for r9_k in 0..E.len() { E[r9_k] OP= RHS; }          (statement position)
+      h  E.keys().cloned().collect()               =>  ({ let mut r9_v = Vec::new(); for r9_kv in E.iter() { r9_v.push(r9_kv.0.clone()); } r9_v })
       g  E.retain(|X| COND);                       =>  { let mut r9_k = 0; while r9_k < E.len() { if ({ let X = &E[r9_k]; COND }) { r9_k += 1; } else { E.remove(r9_k); } } }
       f  E.iter().position(|X| BODY)               =>  ({ let mut r9_p: Option<usize> = None; for r9_k in 0..E.len() { let X = &E[r9_k];
                                                           if r9_p.is_none() && (BODY) { r9_p = Some(r9_k); } } r9_p })
@@ -671,6 +672,11 @@ def r9_desugar_iterators(srcs, stats):
             m2 = re.match(r'\s*;', src[pc:])
             if not mm or not m2 or mm.group(1) != mm.group(2) or re.search(r'\b%s\b' % re.escape(mm.group(1)), mm.group(4)): continue
             edits.append((x.start(), pc + m2.end(), 'for r9_k in 0..%s.len() { %s[r9_k] %s= %s; }' % (E, E, mm.group(3), mm.group(4)) + nl(x.start(), pc + m2.end()), 'R9e_for_each'))
+        # h: the keys of a map, cloned into a vector (iteration order unspecified either way)
+        for x in re.finditer(PLACE + r'\.keys\(\)\s*\.\s*cloned\(\)\s*\.\s*collect\(\)', src):
+            if not live(x.start()): continue
+            E = x.group(1)
+            edits.append((x.start(), x.end(), '({ let mut r9_v = Vec::new(); for r9_kv in %s.iter() { r9_v.push(r9_kv.0.clone()); } r9_v })' % E + nl(x.start(), x.end()), 'R9h_keys_collect'))
         # g: retain statement -- "operates in place, visiting each element exactly once in the original order"
         for x in re.finditer(PLACE + r'\.retain\s*\(', src):
             if not live(x.start()): continue
